@@ -6,7 +6,8 @@ root = os.path.dirname(os.path.dirname(os.path.abspath(__file__)))
 out = {"_comment": "findings = genuine defects recorded and not repaired (each suppresses exactly its witness); fixed = repaired by a fix: commit in /repo (suppresses nothing). Merged from known_findings.d/*.json by tools/mergefindings.py.",
        "findings": [], "fixed": []}
 seen = set()
-for p in [os.path.join(root, "known_findings.json")] + sorted(glob.glob(os.path.join(root, "known_findings.d", "*.json"))):
+# the fragments are the source of truth: an entry removed or reworded in its fragment disappears from the merged file
+for p in sorted(glob.glob(os.path.join(root, "known_findings.d", "*.json"))):
     if not os.path.exists(p):
         continue
     d = json.load(open(p))
